@@ -153,7 +153,9 @@ func exerciserTest(t *testing.T, prop, what string) {
 func TestC01Exerciser(t *testing.T) {
 	exerciserTest(t, "C01", "registers, flags, memory image and port output")
 }
-func TestC05Exerciser(t *testing.T) { exerciserTest(t, "C05", "the memory and port access log of the Step") }
+func TestC05Exerciser(t *testing.T) {
+	exerciserTest(t, "C05", "the memory and port access log of the Step")
+}
 func TestC14Exerciser(t *testing.T) { exerciserTest(t, "C14", "the refresh register") }
 
 func init() {
